@@ -219,8 +219,10 @@ TRUSTED_BASE = [
     "to the same Python syntax tree as a reference statement written from exec_* (loop nests / subscripts / assignee tuples with 0, 1, 2 elements: stated bound); "
     "lower_node / lower_ast / lower_inst (contracts/c01lower.py) are proved to emit, for every structured program, text whose block structure executes exactly the "
     "program's trace (stack machine over the tree ADT, every valuation of the guards)",
-    "A-EXPR (UNVERIFIED): the expression printer (dagrt/codegen/expressions.py on top of pymbolic's stringifier) emits Python text whose value is the value the "
-    "interpreter's EvaluationMapper computes for the expression; the reference statements of c01emit.py are written by hand from exec_* (a spec, compared by reading)",
+    "A-EXPR: the dagrt-specific methods of the Python expression printer (map_variable, map_call, map_call_with_kwargs, map_generic_call with 0-2 positional / keyword "
+    "arguments for registered and unregistered functions, map_if) are validated the same way (returned text parses to the reference expression; nested conditionals "
+    "are printed with the precedence that forces parentheses); UNVERIFIED remains pymbolic's StringifyMapper (operators, precedence, constants), map_constant / "
+    "map_numpy_array, the registered built-ins' text patterns, and that the reference texts mean what the interpreter's EvaluationMapper computes; the reference statements of c01emit.py are written by hand from exec_* (a spec, compared by reading)",
     "template extraction: the string constants passed to emit() in _emit_run/_emit_run_single_step are parsed as the bodies of functions whose header is synthesised from the PythonFunctionEmitter(name, args) call next to them",
     "A-PY: Python's call binding (positional, else keyword, else default; TypeError for doubly given, missing or left-over arguments) is the spec of resolve_args",
     "phase_transition_table[name] == (phase.next_phase, self.phase_<name>) as built by _emit_constructor (not under contract)",
